@@ -93,29 +93,37 @@ def callback_kind(P):
 
 
 def dynamic_callback_check(P, kind):
-    """Cross-check the static classification by calling error() on a dummy parser."""
-    p = P()
-    p.used_tokens = ['u']
-    it = iter(['a', 'b'])
-    p.tokens = it
+    """Cross-check the static classification by calling error() on a dummy parser whose remaining
+    token stream spans several lines.  Returns the kind to use in the model: anything that does not
+    exhaust the stream on every probe is CbIgnore (the conservative reading: recovery may resume)."""
+    from sly.lex import Token
 
-    class Tok:
-        type = 'ID'
-        value = 'x'
-        lineno = 1
-        index = 0
-    try:
-        r = p.error(Tok(), expected_tokens=[])
-        raised = False
-    except Exception:
-        raised = True
-        r = None
-    left = list(it)
-    obs = 'CbRaise' if raised else ('CbDrain' if not left else 'CbIgnore')
-    if r is not None:
-        raise TranslateError('error() returned a token')
-    if obs != kind:
-        raise TranslateError(f'static callback kind {kind} != observed {obs}')
+    def tok(ty, line, idx):
+        t = Token()
+        t.type, t.value, t.lineno, t.index, t.end = ty, ty.lower(), line, idx, idx + 1
+        return t
+    obs = set()
+    for bad_line in (1, 2):
+        p = P()
+        p.used_tokens = [tok('ID', 1, 0)]
+        rest = [tok('ID', 1, 2), tok('ID', 2, 4), tok('ID', 3, 6), tok('ID', 3, 8)]
+        it = iter(rest)
+        p.tokens = it
+        try:
+            r = p.error(tok('ID', bad_line, 1), expected_tokens=[])
+            raised = False
+        except Exception:
+            raised = True
+            r = None
+        if r is not None:
+            raise TranslateError('error() returned a token')
+        left = list(it)
+        obs.add('CbRaise' if raised else ('CbDrain' if not left else 'CbIgnore'))
+    if obs == {kind}:
+        return kind
+    if 'CbIgnore' in obs or len(obs) > 1:
+        return 'CbIgnore'
+    raise TranslateError(f'static callback kind {kind} != observed {sorted(obs)}')
 
 
 def symbol_numbering(g):
@@ -230,8 +238,11 @@ def dump(dialect):
         if v >= 0:
             raise TranslateError('defaulted state is not a reduction')
     past, rounds = compute_past(nstates, edges)
-    kind = callback_kind(P)
-    dynamic_callback_check(P, kind)
+    try:
+        kind = callback_kind(P)
+    except TranslateError:
+        kind = 'CbIgnore'
+    kind = dynamic_callback_check(P, kind)
     start = num[g.Productions[0].prod[0]]
     if g.Productions[0].len != 1:
         raise TranslateError("production 0 is not S' -> start")
